@@ -1,0 +1,10 @@
+//go:build verif
+
+package rtmp
+
+import "net"
+
+// VerifHandleTcpConnect runs the accept handler on an already established connection.
+func (server *Server) VerifHandleTcpConnect(conn net.Conn) {
+	server.handleTcpConnect(conn)
+}
